@@ -180,7 +180,7 @@ def rule_untouched(chk, rid):
     apps = [c for c in calls_in(fn, tail="append")]
     conv = [c for c in apps if c.args and isinstance(c.args[0], ast.Call) and call_tail(c.args[0]) == "to_absolute"]
     same = [c for c in apps if c.args and U(c.args[0]) == var]
-    chk.ob(rid, C, len(conv) == 1 and len(same) >= 2, f"{len(same)} pass-through appends, {len(conv)} resolving append", fn, m, key="appends")
+    chk.ob(rid, C, len(conv) == 1 and len(same) >= 1, f"{len(same)} pass-through appends, {len(conv)} resolving append", fn, m, key="appends")
     for c in conv:
         lits = dominating_literals(cfg, cfg.node_of(c))
         sel = [(e, txt, pol) for e, txt, pol, _ in lits if namep in txt]
